@@ -133,7 +133,7 @@ func points() []point {
 			}
 		}},
 		// files
-		{"keytab.Unmarshal", "binary", hxs(testdata.KEYTAB_TESTUSER1_TEST_GOKRB5, testdata.HTTP_KEYTAB, testdata.KEYTAB_SYSHTTP_RESDOM_GOKRB5), func(b []byte) {
+		{"keytab.Unmarshal", "binary", append(hxs(testdata.KEYTAB_TESTUSER1_TEST_GOKRB5, testdata.HTTP_KEYTAB, testdata.KEYTAB_SYSHTTP_RESDOM_GOKRB5), keytabV1()), func(b []byte) {
 			kt := keytab.New()
 			if kt.Unmarshal(b) == nil {
 				kt.GetEncryptionKey(types.NewPrincipalName(1, "testuser1"), "TEST.GOKRB5", 0, 18)
@@ -142,7 +142,7 @@ func points() []point {
 				kt.Marshal()
 			}
 		}},
-		{"CCache.Unmarshal", "binary", hxs(testdata.CCACHE_TEST), func(b []byte) {
+		{"CCache.Unmarshal", "binary", append(hxs(testdata.CCACHE_TEST), ccacheOfVersion(3), ccacheOfVersion(2), ccacheOfVersion(1)), func(b []byte) {
 			c := new(credentials.CCache)
 			if c.Unmarshal(b) == nil {
 				c.GetClientCredentials()
@@ -153,7 +153,7 @@ func points() []point {
 				c.GetEntry(types.NewPrincipalName(1, "HTTP/host.test.gokrb5"))
 			}
 		}},
-		{"config.NewFromString", "text", [][]byte{[]byte(testdata.KRB5_CONF), []byte(testdata.KRB5_CONF_AD), []byte(confExtra)}, func(b []byte) {
+		{"config.NewFromString", "text", [][]byte{[]byte(testdata.KRB5_CONF), []byte(testdata.KRB5_CONF_AD), []byte(confExtra), []byte(confForms)}, func(b []byte) {
 			c, err := config.NewFromString(string(b))
 			if err == nil && c != nil {
 				c.ResolveRealm("host.test.gokrb5")
@@ -202,7 +202,19 @@ func points() []point {
 	// GSS-API per-message tokens (what the other end of an established context sends)
 	if wt, err := gssapi.NewInitiatorWrapToken([]byte("application data to protect"), testKey); err == nil {
 		if wb, err := wt.Marshal(); err == nil {
-			ps = append(ps, point{"WrapToken", "binary", [][]byte{wb}, func(b []byte) {
+			// the same token as other implementations send it: with a right rotation count (Windows uses
+			// 28), with extra count and rotation, as the acceptor's reply
+			rot := append([]byte{}, wb...)
+			rot[6], rot[7] = 0, 28
+			both := append([]byte{}, wb...)
+			both[4], both[5], both[6], both[7] = 0, 12, 0, 12
+			acc := append([]byte{}, wb...)
+			acc[2] |= 1
+			// header of a sealed (confidential) token as Windows sends it: flag Sealed, EC 0, RRC 28
+			sealed := append([]byte{}, wb...)
+			sealed[2] |= 2
+			sealed[4], sealed[5], sealed[6], sealed[7] = 0, 0, 0, 28
+			ps = append(ps, point{"WrapToken", "binary", [][]byte{wb, rot, both, acc, sealed}, func(b []byte) {
 				var v gssapi.WrapToken
 				if v.Unmarshal(b, false) == nil {
 					v.Verify(testKey, 24)
@@ -253,3 +265,93 @@ var confExtra = strings.Join([]string{
 	" forwardable = yes", " udp_preference_limit = 1", "", "[realms]", " EXAMPLE.COM = {", "  kdc = kdc1.example.com:88", "  kdc = kdc2.example.com", "  admin_server = kdc1.example.com:749",
 	"  auth_to_local_names = {", "   fred = freddy", "  }", "  v4_instance_convert = {", "   mail = mailhost", "  }", " }", " OTHER.ORG = {", "  kdc = 10.0.0.1*", "  kdc = ignored", " }", "",
 	"[domain_realm]", " .example.com = EXAMPLE.COM", " example.com = EXAMPLE.COM", " .sub.example.com = OTHER.ORG", "", "[appdefaults]", " x = {", "  y = z", " }", ""}, "\n")
+
+// confForms: the value forms krb5.conf documents for durations, booleans and lists, one per line.
+var confForms = strings.Join([]string{
+	"[libdefaults]", " default_realm = FORMS.TEST", " ticket_lifetime = 1:2", " renew_lifetime = 12:30:15", " clockskew = 300", " kdc_timesync = 1",
+	" default_tgs_enctypes = aes256-cts-hmac-sha1-96, aes128-cts-hmac-sha1-96 des3-cbc-sha1", " permitted_enctypes = 18 17 23", " dns_lookup_kdc = false", " noaddresses = 0",
+	" proxiable = y", " rdns = no", " verify_ap_req_nofail = t", " extra_addresses = 10.0.0.1, 10.0.0.2", " preferred_preauth_types = 17,16,15,14", " safe_checksum_type = 8",
+	" kdc_default_options = 0x00000010", " realm_try_domains = 2", " k5login_authoritative = true", " ccache_type = 4", "", "[realms]", " FORMS.TEST = {", "  kdc = [2001:db8::1]:88", "  kdc = kdc.forms.test:88",
+	"  kpasswd_server = kdc.forms.test:464", "  master_kdc = kdc.forms.test", "  default_domain = forms.test", " }", "", "[libdefaults]", " ticket_lifetime = 2h30m", " renew_lifetime = 1d2h3m4s", " clockskew = 0h5m", ""}, "\n")
+
+// keytabV1 renders a version-1 keytab (native byte order, component count includes the realm, no
+// name type, 8-bit key version only) with two entries.
+func keytabV1() []byte {
+	out := []byte{5, 1}
+	le16 := func(b []byte, v uint16) []byte { return append(b, byte(v), byte(v>>8)) }
+	le32 := func(b []byte, v uint32) []byte { return append(b, byte(v), byte(v>>8), byte(v>>16), byte(v>>24)) }
+	cs := func(b []byte, x string) []byte { return append(le16(b, uint16(len(x))), x...) }
+	for _, comps := range [][]string{{"testuser1"}, {"HTTP", "host.test.gokrb5"}} {
+		var e []byte
+		e = le16(e, uint16(len(comps)+1))
+		e = cs(e, "TEST.GOKRB5")
+		for _, c := range comps {
+			e = cs(e, c)
+		}
+		e = le32(e, 1500000000)
+		e = append(e, 3)
+		e = le16(e, 18)
+		e = cs(e, "0123456789abcdef0123456789abcdef")
+		out = append(le32(out, uint32(len(e))), e...)
+	}
+	return out
+}
+
+// ccacheOfVersion renders a small credential cache in format version 1, 2 or 3 (1 and 2: native
+// byte order; 1: no name type and the component count includes the realm; 3: key type twice).
+func ccacheOfVersion(v int) []byte {
+	out := []byte{5, byte(v)}
+	big := v >= 3
+	u16 := func(b []byte, x uint16) []byte {
+		if big {
+			return append(b, byte(x>>8), byte(x))
+		}
+		return append(b, byte(x), byte(x>>8))
+	}
+	u32 := func(b []byte, x uint32) []byte {
+		if big {
+			return append(b, byte(x>>24), byte(x>>16), byte(x>>8), byte(x))
+		}
+		return append(b, byte(x), byte(x>>8), byte(x>>16), byte(x>>24))
+	}
+	data := func(b []byte, d []byte) []byte { return append(u32(b, uint32(len(d))), d...) }
+	princ := func(b []byte, realm string, comps ...string) []byte {
+		if v != 1 {
+			b = u32(b, 1)
+		}
+		n := len(comps)
+		if v == 1 {
+			n++
+		}
+		b = u32(b, uint32(n))
+		b = data(b, []byte(realm))
+		for _, c := range comps {
+			b = data(b, []byte(c))
+		}
+		return b
+	}
+	out = princ(out, "TEST.GOKRB5", "testuser1")
+	for _, srv := range [][]string{{"krbtgt", "TEST.GOKRB5"}, {"HTTP", "host.test.gokrb5"}} {
+		out = princ(out, "TEST.GOKRB5", "testuser1")
+		out = princ(out, "TEST.GOKRB5", srv...)
+		out = u16(out, 18)
+		if v == 3 {
+			out = u16(out, 18)
+		}
+		out = data(out, []byte("0123456789abcdef0123456789abcdef"))
+		for _, t := range []uint32{1500000000, 1500000000, 1500036000, 1500604800} {
+			out = u32(out, t)
+		}
+		out = append(out, 0)
+		out = append(out, 0x40, 0xe1, 0, 0)
+		out = u32(out, 1)
+		out = u16(out, 2)
+		out = data(out, []byte{10, 80, 88, 88})
+		out = u32(out, 1)
+		out = u16(out, 1)
+		out = data(out, []byte{0x30, 0x00})
+		out = data(out, hx(testdata.MarshaledKRB5ticket))
+		out = data(out, nil)
+	}
+	return out
+}
